@@ -213,4 +213,19 @@ TARGETS = {
             dict(file="happysimulator/components/datastore/eviction_policies.py", cls="FIFOEviction", fields={"_order": "list Z"}, methods={"on_access": dict(params={"key": "Z"}), "on_insert": dict(params={"key": "Z"}), "on_remove": dict(params={"key": "Z"}), "evict": dict(ret="opt Z"), "clear": {}}),
         ],
     ),
+    # Memtable, synchronous API (the generator methods put/get are hand-modelled); keys and stored values are integers
+    # (a stored value is never None: LSMTree writes a tombstone object for deletes)
+    "MemtableGen": dict(
+        out="Gen/MemtableGen.v", tie="C14/MemTie.v",
+        header="From HS Require Import Base.Prelude Base.PyLib.",
+        classes=[
+            dict(file="happysimulator/components/storage/memtable.py", cls="Memtable",
+                 fields={"_size_threshold": "Z", "_data": "dict", "_total_writes": "Z", "_total_bytes_written": "Z",
+                         "_total_reads": "Z", "_total_hits": "Z", "_total_misses": "Z"},
+                 methods={"is_full": dict(pure=True), "size": dict(pure=True),
+                          "put_sync": dict(params={"key": "Z", "value": "Z"}),
+                          "get_sync": dict(params={"key": "Z"}, ret="opt Z"),
+                          "contains": dict(params={"key": "Z"}, pure=True)}),
+        ],
+    ),
 }
